@@ -4,7 +4,10 @@ use std::convert::TryFrom;
 #[cfg(feature = "http-listener")]
 use std::net::{IpAddr, Ipv4Addr, SocketAddr};
 use std::num::NonZeroU32;
+#[cfg(not(metrics_verif))]
 use std::sync::RwLock;
+#[cfg(metrics_verif)]
+use metrics::verif::sync::RwLock;
 #[cfg(any(feature = "http-listener", feature = "push-gateway"))]
 use std::thread;
 use std::time::Duration;
@@ -522,6 +525,12 @@ impl PrometheusBuilder {
     /// section in the top-level crate documentation for more information.
     pub fn build_recorder(self) -> PrometheusRecorder {
         self.build_with_clock(Clock::new())
+    }
+
+    /// Verification hook: builds the recorder with the given clock.
+    #[cfg(metrics_verif)]
+    pub fn verif_build_with_clock(self, clock: Clock) -> PrometheusRecorder {
+        self.build_with_clock(clock)
     }
 
     pub(crate) fn build_with_clock(self, clock: Clock) -> PrometheusRecorder {
